@@ -21,12 +21,12 @@ Proof. exact state_roundtrip_needs_wiring. Qed.
 (* compiled library: save to p, load p (same or another process: the model has no process-local state besides handles),
    call: the model just saved, from any reachable state *)
 Theorem C15_lib_roundtrip : forall s a m p, Rl s a ->
-  run AtomicRename PrivateCopy s [OCompile m (Some p); OLoad p; OCall (S (length (handles s)))]
+  run AtomicRename PrivateCopy Refuses s [OCompile m (Some p); OLoad p; OCall (S (length (handles s)))]
   = [RHandle (length (handles s)); RHandle (S (length (handles s))); RValue m].
 Proof. exact save_load_roundtrip. Qed.
 
 Theorem C15_load_configuration : save_mode = AtomicRename /\ load_mode = PrivateCopy /\ load_passes_num_bits = true
-  /\ load_sets_shape_and_classes = true.
+  /\ load_sets_shape_and_classes = true /\ recompile_mode = Refuses.
 Proof. exact current_disciplines. Qed.
 
 Eval compute in "PA:C15_state_roundtrip"%string. Print Assumptions C15_state_roundtrip.
